@@ -85,6 +85,22 @@ def extract(repo):
             put(key, val)
     except Exception as e:  # pragma: no cover
         missing.append(f"parser.py: {e}")
+    # ---- reserved variable names (C20 / C05): check_vname
+    try:
+        ot0 = _parse(repo, "pyrates/frontend/template/operator.py")
+        cv = _func(ot0, "check_vname")
+        for var, key in (("disallowed_names", "disallowedNames"), ("disallowed_name_parts", "disallowedNameParts")):
+            val = None
+            if cv:
+                for st in ast.walk(cv):
+                    if isinstance(st, ast.Assign) and len(st.targets) == 1 and isinstance(st.targets[0], ast.Name) and st.targets[0].id == var:
+                        try:
+                            val = list(ast.literal_eval(st.value))
+                        except Exception:
+                            val = None
+            put(key, val)
+    except Exception as e:  # pragma: no cover
+        missing.append(f"check_vname: {e}")
     # ---- module-level caches (C13): what keys OperatorTemplate.cache, and are the per-circuit IR caches reset at the start of apply()?
     try:
         ot = _parse(repo, "pyrates/frontend/template/operator.py")
@@ -112,6 +128,62 @@ def extract(repo):
         put("irCachesResetAtApply", ("clear_ir_caches" in called and "clear_edge_caches" in called) if capp else None)
     except Exception as e:  # pragma: no cover
         missing.append(f"caches: {e}")
+    # ---- backends (C20): supported solvers, dispatch structure of _solve, feature flags, vectorization guard
+    try:
+        specs = [("base", "pyrates/backend/base/base_backend.py", "BaseBackend"), ("torch", "pyrates/backend/torch/torch_backend.py", "TorchBackend"),
+                 ("jax", "pyrates/backend/jax/jax_backend.py", "JaxBackend"), ("fortran", "pyrates/backend/fortran/fortran_backend.py", "FortranBackend"),
+                 ("julia", "pyrates/backend/julia/julia_backend.py", "JuliaBackend"), ("matlab", "pyrates/backend/matlab/matlab_backend.py", "MatlabBackend")]
+        backends = {}
+        for key, rel, cname in specs:
+            try:
+                tree = _parse(repo, rel)
+            except Exception:
+                continue
+            cls = _class(tree, cname)
+            if cls is None:
+                continue
+            info = {"class": cname, "parent": (ast.unparse(cls.bases[0]) if cls.bases else None)}
+            for attr in ("SUPPORTED_SOLVERS", "SUPPORTS_SPARSE_JACOBIAN", "SUPPORTS_EDGE_DELAY_BUFFER"):
+                v = _class_attr(cls, attr)
+                info[attr] = list(v) if isinstance(v, tuple) else v
+            sv = None
+            for n in cls.body:
+                if isinstance(n, ast.FunctionDef) and n.name == "_solve":
+                    sv = n
+            if sv is not None:
+                body = [b for b in sv.body if not (isinstance(b, ast.Expr) and isinstance(b.value, ast.Constant))]
+                first = ast.unparse(body[0]) if body else ""
+                info["validates_first"] = first.replace(" ", "") == "self._validate_solver(solver)"
+                branches = []
+                for b in body:
+                    if isinstance(b, ast.If):
+                        t = ast.unparse(b.test).replace(" ", "")
+                        m = re.fullmatch(r"solver==['\"](\w+)['\"]", t)
+                        rets = [ast.unparse(r.value.func) if isinstance(r.value, ast.Call) else ast.unparse(r.value)
+                                for r in ast.walk(b) if isinstance(r, ast.Return) and r.value is not None]
+                        # all returns of the branch must implement the same solver family
+                        branches.append([m.group(1) if m else "?" + t, rets[-1] if rets else ""])
+                last = body[-1] if body else None
+                ft = (ast.unparse(last.value.func) if isinstance(last.value, ast.Call) else ast.unparse(last.value)) \
+                    if isinstance(last, ast.Return) and last.value is not None else ""
+                info["branches"] = branches
+                info["fallthrough"] = ft
+            backends[key] = info
+        put("backends", backends)
+        ct2 = _parse(repo, "pyrates/frontend/template/circuit.py")
+        vf = _func(_class(ct2, "CircuitTemplate"), "_validate_backend_args")
+        forb = None
+        if vf:
+            for n in ast.walk(vf):
+                if isinstance(n, ast.If):
+                    t = ast.unparse(n.test)
+                    if "vectorize" in t and " in " in t:
+                        for c in ast.walk(n.test):
+                            if isinstance(c, ast.List):
+                                forb = [ast.literal_eval(e) for e in c.elts]
+        put("vectorizeForbiddenBackends", forb)
+    except Exception as e:  # pragma: no cover
+        missing.append(f"backends: {e}")
     return T, missing
 
 
@@ -184,6 +256,51 @@ def render(T, missing):
     L.append(f"def heunCopiesRhs : Bool := {'true' if T.get('heunCopiesRhs') is True else 'false'}")
     L.append(f"/-- BaseBackend.run builds `times` as np.arange(n)*step (true) or as linspace(0,T,n,endpoint=False)/unknown (false) -/")
     L.append(f"def timeAxisIsArange : Bool := {'true' if T.get('timeAxisKind') == 'arangeStep' else 'false'}")
+    # backends table: inheritance of class attributes is resolved here (a subclass without its own attribute inherits BaseBackend's)
+    B = T.get("backends") or {}
+    base = B.get("base", {})
+
+    def attr(k, a, default):
+        v = B.get(k, {}).get(a)
+        if v is None:
+            v = base.get(a)
+        return default if v is None else v
+
+    def method_implements(ret):
+        # `self._solve_euler` / `super()._solve_scipy_dde` / `super()._solve` -> what it implements
+        m = re.search(r"_solve_(\w+)$", ret)
+        if m:
+            nm = m.group(1)
+            return "scipy" if nm.startswith("scipy") else nm
+        if re.fullmatch(r"super\(.*\)\._solve", ret.replace(" ", "")):
+            return "super"
+        return "?" + ret
+    L.append("structure BackendT where")
+    L.append("  name : String")
+    L.append("  supported : List String")
+    L.append("  validatesFirst : Bool")
+    L.append("  branches : List (String × String)   -- explicitly tested solver name ↦ what the returned method implements")
+    L.append("  fallthrough : String                -- what the final return implements; \"super\" = delegates to the base class")
+    L.append("  hasOwnSolve : Bool")
+    L.append("  sparseJac : Bool")
+    L.append("  edgeDelayBuffer : Bool")
+    L.append("deriving Repr, DecidableEq")
+    items = []
+    for k in ("base", "torch", "jax", "fortran", "julia", "matlab"):
+        if k not in B:
+            continue
+        info = B[k]
+        own = "branches" in info
+        br = [(b[0], method_implements(b[1])) for b in info.get("branches", [])]
+        items.append("{ name := %s, supported := %s, validatesFirst := %s, branches := %s, fallthrough := %s, hasOwnSolve := %s, sparseJac := %s, edgeDelayBuffer := %s }" % (
+            lean_str(k), lean_list([str(x) for x in attr(k, "SUPPORTED_SOLVERS", [])]), "true" if info.get("validates_first") else "false",
+            "[" + ", ".join("(%s, %s)" % (lean_str(a), lean_str(b)) for a, b in br) + "]", lean_str(method_implements(info.get("fallthrough", "")) if own else "super"),
+            "true" if own else "false", "true" if attr(k, "SUPPORTS_SPARSE_JACOBIAN", True) is True else "false",
+            "true" if attr(k, "SUPPORTS_EDGE_DELAY_BUFFER", True) is True else "false"))
+    L.append("def backends : List BackendT := [" + ",\n  ".join(items) + "]")
+    L.append(f"def vectorizeForbiddenBackends : List String := {lean_list([str(x) for x in (T.get('vectorizeForbiddenBackends') or [])])}")
+    for key in ("disallowedNames", "disallowedNameParts"):
+        L.append(f"def {key} : List String := {lean_list([str(x) for x in (T.get(key) or [])])}")
     for key in ("opCacheKeyIncludesDefinition", "irCachesResetAtApply"):
         L.append(f"def {key} : Bool := {'true' if T.get(key) is True else 'false'}")
     for key in ("replaceAllowedFollowOps", "varInExprFollowOps"):
